@@ -94,13 +94,20 @@ func (t Tcb) json() string {
 	return fmt.Sprintf(`{"sgxtcbcomponents":%s,"pcesvn":%d,"tdxtcbcomponents":%s}`, jcomps(t.Sgx), t.PceSvn, jcomps(t.Tdx))
 }
 
+// AbsentStatus as the Status of a level leaves the tcbStatus member out of the document.
+const AbsentStatus = "<absent>"
+
 func jlevels(ls []TcbLevel) string {
 	return jarr(len(ls), func(i int) string {
 		l, adv := ls[i], ""
 		if len(l.AdvisoryIDs) > 0 {
 			adv = `,"advisoryIDs":` + jarr(len(l.AdvisoryIDs), func(j int) string { return jstr(l.AdvisoryIDs[j]) })
 		}
-		return fmt.Sprintf(`{"tcb":%s,"tcbDate":%s,"tcbStatus":%s%s}`, l.Tcb.json(), jstr(l.Date), jstr(l.Status), adv)
+		st := `,"tcbStatus":` + jstr(l.Status)
+		if l.Status == AbsentStatus {
+			st = ""
+		}
+		return fmt.Sprintf(`{"tcb":%s,"tcbDate":%s%s%s}`, l.Tcb.json(), jstr(l.Date), st, adv)
 	})
 }
 
